@@ -41,7 +41,7 @@ def gen_cfg(name, **kw):
     return name, '\n'.join(lines) + '\n'
 
 
-def run(rep, pid, cfgs, modes='ctl-unsafe,ctl-safe,sync', module='Gen', replay_cmd='replay-pipeline', extra_args=()):
+def run(rep, pid, cfgs, modes='ctl-unsafe,ctl-safe,sync', module='Gen', replay_cmd='replay-pipeline', extra_args=(), class_props=None, prefix='pipeline.'):
     """cfgs: list of (name, cfg text). Generates with TLC, replays on the real code, records violations of `pid`."""
     d = vlib.scratch('pipe-')
     try:
@@ -73,21 +73,22 @@ def run(rep, pid, cfgs, modes='ctl-unsafe,ctl-safe,sync', module='Gen', replay_c
                 if cls in NOTES or cls.split('-', 1)[-1] in NOTES:
                     notes[cls] = notes.get(cls, 0) + 1
                     continue
-                if pid not in props_of(cls):
+                if pid not in (class_props.get(cls, []) if class_props is not None else props_of(cls)):
                     continue
-                comps = [x.split('(')[0] for x in m['chain'].split('|')]
+                comps = [x.split('(')[0].split('/')[0] for x in m['chain'].split('|')]
                 raw = res['raw'].get(str(m['case']))
-                if raw and raw.get('fault', {}).get('stage', 0) >= 1:
+                if raw and (raw.get('fault') or {}).get('stage', 0) >= 1:
                     comps = [comps[raw['fault']['stage'] - 1]]    # the operator whose callback received the injected fault
-                rep.add_violation('pipeline.' + cls, '%s [%s step %d] %s' % (m['chain'], m['mode'], m['step'], m['detail']),
-                                  replay_obj=dict(kind='pipeline', module=module, mode=m['mode'], case=raw, mismatch=m), components=comps)
+                rep.add_violation(prefix + cls, '%s [%s step %d] %s' % (m['chain'], m['mode'], m['step'], m['detail']),
+                                  replay_obj=dict(kind='pipeline', module=module, mode=m['mode'], case=raw, mismatch=m), components=comps,
+                                  case=raw, mismatch=m)
             if notes:
                 rep.parts['gen:' + name]['notes'] = notes
     finally:
         shutil.rmtree(d, ignore_errors=True)
 
 
-def replay_case(pid, path, replay_cmd='replay-pipeline'):
+def replay_case(pid, path, replay_cmd='replay-pipeline', class_props=None):
     obj = json.load(open(path))
     rp = obj['replay']
     d = vlib.scratch('rp-')
@@ -98,7 +99,7 @@ def replay_case(pid, path, replay_cmd='replay-pipeline'):
         out = os.path.join(d, 'res.json')
         vlib.run_harness([replay_cmd, '-in', gen, '-out', out, '-modes', rp['mode']])
         res = json.load(open(out))
-        bad = [m for m in (res['mismatches'] or []) if pid in props_of(m['class'])]
+        bad = [m for m in (res['mismatches'] or []) if pid in (class_props.get(m['class'], []) if class_props is not None else props_of(m['class']))]
         for m in bad:
             print('VIOLATION property=%s replay=%s  # %s %s' % (pid, path, m['class'], m['detail']))
         if not bad:
